@@ -93,6 +93,8 @@ def normalise(t: T, bound_name: str = "x") -> T:
     def go(x: T, neg: bool) -> T:
         if x.op == "not":
             return go(x.a[0], not neg)
+        if x.op == "call" and x.a[0] == T("builtin", ("bool",)) and len(x.a[1]) == 1 and not x.a[2]:
+            return go(x.a[1][0], neg)           # bool(x) as a condition is x
         if x.op == "cmp" and x.a[0] in ("==", "!=", "is", "is not"):
             # `isinstance(r, C) == False` is `not isinstance(r, C)` (a truth value compared with a truth value)
             for b_, y_ in ((x.a[1], x.a[2]), (x.a[2], x.a[1])):
@@ -120,8 +122,13 @@ def normalise(t: T, bound_name: str = "x") -> T:
             if op in COMMUTATIVE_CMP and sym.pretty(l) > sym.pretty(r):
                 l, r = r, l
             if op in ("in", "not in") and r.op in ("tuple", "list", "set") and not any(i.op == "star" for i in r.a[0]):
-                # membership in a literal does not depend on the order (or kind) of the literal
-                r = T("tuple", (tuple(sorted(set(r.a[0]), key=sym.pretty)),))
+                # membership in a literal does not depend on the order (or kind) of the literal; in a short one it is the
+                # disjunction of the equalities (`x in (a, b)` is `x == a or x == b`)
+                items_ = sorted(set(r.a[0]), key=sym.pretty)
+                if 1 <= len(items_) <= 4:
+                    eqs = [go(T("cmp", ("==" if op == "in" else "!=", l, i_)), False) for i_ in items_]
+                    return eqs[0] if len(eqs) == 1 else mk("or" if op == "in" else "and", eqs)
+                r = T("tuple", (tuple(items_),))
             return T("cmp", (op, l, r))
         v = val(x)
         return T("not", (v,)) if neg else v
